@@ -139,7 +139,12 @@ def kernel_specs(d, tier):
             eds += [ED(ga=v) for v in (GA[0], GA[2])] + [ED(de=v) for v in (DE[0], DE[2])]
             eds += [ED(de=0.0, fixed=True), ED(de=0.5, fixed=True), ED(mx_={"m": "zero"})]
         else:
-            eds = [ED(al=a, ml=b, ga=c, de=e) for a in AL for b in ML for c in GA for e in DE]
+            if d == 2:
+                eds = [ED(al=a, ml=b, ga=c, de=e) for a in AL for b in ML for c in GA for e in DE]
+            else:       # d = 3: centre + one parameter at a time (the full 3^4 product is enumerated for d = 2)
+                eds = [ED()]
+                eds += [ED(al=v) for v in (AL[0], AL[2])] + [ED(ml=v) for v in (ML[0], ML[2])]
+                eds += [ED(ga=v) for v in (GA[0], GA[2])] + [ED(de=v) for v in (DE[0], DE[2])]
             eds += [ED(kx=M(d - 1, [ib], cs)) for ib in (IB[0], IB[2]) for cs in (CS[0], CS[2])]
             eds += [ED(de=v, fixed=True) for v in DE]
             eds += [ED(mx_={"m": "zero"}), ED(mx_={"m": "zero"}, de=1.0)]
@@ -612,6 +617,9 @@ def make_tasks(tier):
                      (2, NOISE[2])]
         for i, noise in dplan:
             for pi, (n, alpha, allt, single) in enumerate(data_plan("D", d, tier)):
+                if tier != "quick" and d == 3 and n == 3 and (i, noise) not in \
+                        [(0, NOISE[0]), (0, NOISE[2]), (1, NOISE[1]), (2, NOISE[0])]:
+                    continue        # the 27720 3-multisets over the full P_3: 4 of the 7 (kernel, noise) pairs
                 total = n_multisets(len(alpha), n)
                 size = 1200 if n <= 2 else 700
                 nch = max(1, math.ceil(total / size))
@@ -624,7 +632,7 @@ def make_tasks(tier):
                     2: [(0, NOISE[0]), (4, NOISE[2]), (3, NOISE[1])],
                     3: [(4, NOISE[0]), (0, NOISE[2])]}[d]
         elif d == 1:
-            plan = [(i, noise) for i in (0, 1, 2, 3, 4) for noise in NOISE]
+            plan = [(i, noise) for i in (0, 1, 2, 3, 4) for noise in (NOISE[0], NOISE[2])] + [(0, NOISE[1]), (3, NOISE[1])]
         else:
             plan = [(0, NOISE[0]), (0, NOISE[2]), (1, NOISE[1]), (2, NOISE[0]), (3, NOISE[1]), (3, NOISE[0]),
                     (4, NOISE[0]), (4, NOISE[2])]
@@ -699,12 +707,13 @@ RULE = (
     "test inputs: the whole alphabet P_d at once, the training set itself, one singleton; joint samples over S_d. "
     "Block P: every kernel configuration (Matern52 iso/ARD, with/without covariance scale, (kernel,scale) tuple form, "
     "warped full/partial range, product, exponential-decay resource kernel with its mean function; parameters at "
-    "{lower, init, upper-ish} levels, ARD vectors: all 3^d for d=2, constants+permutations for d=3) x noise "
+    "{lower, init, upper-ish} levels, ARD vectors: all 3^d for d=2, constants+permutations for d=3; exp-decay "
+    "(alpha, mean_lam, gamma, delta): full 3^4 product for d=2, centre + one-at-a-time for d=3 and in quick) x noise "
     "{1e-6,1e-3,1} x mean {zero, scalar .5 | exp-decay mean} x all multisets over the sub-alphabets. "
     "Block C: true box corners inv_bw {1e-4,100} x cov_scale {1e-3,1e3} x noise {1e-9,1e6}. "
     "Block D: 3 general-position kernels x 7 (kernel, noise) pairs (quick: 1 kernel x 3 noise levels) x ALL multisets "
     "over the full alphabet P_d (quick: d=1 n<=5, d=2,3 n<=2; thorough: n<=5 for d=1, "
-    "n<=3 for d=2,3; n=5 over 10-point sub-alphabets for d=2,3). "
+    "n<=3 for d=2,3 (d=3,n=3: 4 of the 7 pairs); n=5 over 10-point sub-alphabets for d=2,3). "
     "Block Q: all operation sequences of length <=3 over {update(x,y), sample_and_update(x) with the normal draw stubbed to "
     "0,+1,-1 (and a mixed draw with mean_impute_mask), expand_fantasies(2|3)} from initial states with n0 in {1,2}, "
     "m0 in {1,3}; x from 3 (quick: 2) alphabet points that duplicate / nearly duplicate / differ from the initial rows, "
